@@ -150,7 +150,8 @@ LENIENT = [("rgba(0, 0, 0, 50)", "#ffffff"), ((30, 60, 90, 35), "white"), ("#555
            ("rgba(0, 0, 0, 50%)", "white"), ("hsla(0, 0%, 0%, 40)", "white"), (("119", "119", "119"), "white"), ([119, 119, 119, 0.5], [255, 255, 255]),
            ("rgb(119 119 119 / 0.5)", "white"), ("  #777  ", " WHITE "), ("rgba(0,0,0,1.0)", "rgba(255,255,255,100)")]
 ENTRIES = [("#777", "#fff"), ((119, 119, 119), (0, 0, 0), True), ("hsl(240, 100%, 2%)", "white"), ("yellow", "white"),
-           ("rgba(0,0,0,0.4)", (250, 240, 20)), ("bogus", "white"), ("rgb(200, 200, 100)", "#fff")]
+           ("rgba(0,0,0,0.4)", (250, 240, 20)), ("bogus", "white"), ("rgb(200, 200, 100)", "#fff"),
+           ((300, 0, 0), "#ffffff"), ("#777", [1, 2])]
 
 
 def judge_bulk(idx, mode):
